@@ -79,6 +79,15 @@ func c18L3(r *core.R) {
 	reach := c18Reachable(c.pk, c.funcs, c.fi.Decl)
 	r.Stat("functions_evaluated", len(reach))
 
+	// A function that walks the TAGS and looks the rule up by key never reaches a loop over the table. In the
+	// witness world of one abstract entry (no other tag has a rule) "this entry does not match" then IS the final
+	// answer false; where the table loop is entered, false in place of "next entry" stays a violation.
+	norm := func(o c18Out) c18Out {
+		if o.kind == "false" && x.loopState == 0 {
+			o.kind = "head"
+		}
+		return o
+	}
 	// ---- prefix: from the entry to the rule loop
 	clLen := &c18Clause{name: at("precondition len(nodes) > 3"), proof: "every input with at most 3 node refs returns false without indexing an empty list, and 4 refs behave like 5"}
 	clClosed := &c18Clause{name: at("precondition closed"), proof: "every input whose first and last node ids differ returns false whatever the tags"}
@@ -106,7 +115,7 @@ func c18L3(r *core.R) {
 				case area != "":
 					clOther.expect(s, o, "true", "returns true (a non-empty area value other than no always is an area)")
 				default:
-					clAbsent.expect(s, o, "head", "evaluates the rule table")
+					clAbsent.expect(s, norm(o), "head", "evaluates the rule table")
 				}
 			}
 			if closed && outs[4].kind != outs[5].kind {
@@ -147,7 +156,7 @@ func c18L3(r *core.R) {
 			for _, p := range []bool{true, false} {
 				for _, q := range []bool{true, false} {
 					s := c18IterScen(kind, v, p, q)
-					o := x.run(c18ModeIter, s)
+					o := norm(x.run(c18ModeIter, s))
 					nruns++
 					member := !p && q
 					switch {
@@ -177,7 +186,7 @@ func c18L3(r *core.R) {
 						continue
 					}
 					s := c18ListScen(kind, c18Fresh, ll, rk, eq)
-					o := x.run(c18ModeIter, s)
+					o := norm(x.run(c18ModeIter, s))
 					nruns++
 					in := map[bool]string{true: "is", false: "is not"}[eq]
 					switch {
@@ -231,6 +240,49 @@ func c18L3(r *core.R) {
 		nruns++
 	}
 	clAfter.emit(r, loopPos)
+	// ---- an element without any tag: a fast path may answer false at once, or the general code runs as for
+	// unrelated tags; both are the published answer (no area value, every entry skipped)
+	clEmpty := &c18Clause{name: at("no tags at all -> false"), proof: "with an empty tag set the function returns false, directly (fast path) or by evaluating the rule table, skipping every entry and returning false behind the loop"}
+	anyOf := func(s *c18Scen, o c18Out, ok ...string) {
+		for _, k := range ok {
+			if o.kind == k {
+				clEmpty.expect(s, o, k, "")
+				return
+			}
+		}
+		clEmpty.expect(s, o, ok[0], "returns false for an element without tags (at once or via the rule table)")
+	}
+	{
+		s := &c18Scen{n: 5, closed: true, tags: map[string]string{"area": ""}, empty: true}
+		anyOf(s, x.run(c18ModePrefix, s), "false", "head")
+		s2 := *s
+		anyOf(&s2, x.run(c18ModeDone, &s2), "false")
+		for _, kind := range []string{"all", "whitelist", "blacklist"} {
+			si := c18ListScen(kind, "", 1, 0, false)
+			si.empty = true
+			anyOf(si, x.run(c18ModeIter, si), "false", "head")
+		}
+		nruns += 5
+	}
+	clEmpty.emit(r, c.fi.Decl.Pos())
+	// ---- the answer is a function of the tag SET: the area value decides wherever the area tag stands, and of
+	// two tags with the same key only the first counts (Tags.Find). Code that walks the tags itself is run on
+	// witness lists with the entry's tag before the area tag, and with a second tag of the entry's key.
+	clOrder := &c18Clause{name: at("tag order and duplicate keys"), proof: "area=no / area=<other> decide although a tag that satisfies its rule precedes the area tag, and a second tag with the entry's key is ignored"}
+	for _, first := range []bool{false, true} {
+		for _, area := range []string{"no", "yes"} {
+			s := c18ListScen("all", "yes", 1, 0, false)
+			s.tags["area"], s.entryFirst = area, first
+			want := map[string]string{"no": "false", "yes": "true"}[area]
+			clOrder.expect(s, x.run(c18ModeIter, s), want, "returns "+want+" (the area value overrides the rules whatever the tag order)")
+			nruns++
+		}
+		s := c18ListScen("all", "no", 1, 0, false)
+		s.dup, s.entryFirst = true, first
+		clOrder.expect(s, norm(x.run(c18ModeIter, s)), "head", "skips the entry (its first tag has the value no; the second tag of that key does not count)")
+		nruns++
+	}
+	clOrder.emit(r, c.fi.Decl.Pos())
 	r.Stat("abstract_inputs_evaluated", nruns)
 
 	// ---- reads: receiver only through len/index of Nodes and Tags.Find(const | entry.key)
